@@ -8,7 +8,7 @@ Does not decide: LIMIT/OFFSET arithmetic, NULL placement (value level)."""
 import re
 
 from mir import pl_fields, operand_places
-from tmpl import site, suffix, const_arg
+from tmpl import site, suffix, const_arg, local_defs
 
 FLAG = 'storage::StorageImpl::table_is_sorted_by_primary_key'
 SCAN_EXEC = 'executor::table_scan::TableScanExecutor::<S>::execute'
@@ -155,3 +155,54 @@ def run(ctx):
                        what='LimitExecutor skips its row counter for some batches (e.g. a batch lying entirely before OFFSET): later '
                             'batches are sliced at the wrong position')
 
+    R5 = 'C12-R5'
+    ctx.rule(R5, 'an absent LIMIT is not a size: the builder hands TopN / Limit a huge sentinel when the query has no LIMIT, so no '
+                 'allocation in those executors may be sized by `limit` (with_capacity*, reserve, vec![_; n]) unless the amount went '
+                 'through `min`; otherwise `ORDER BY k OFFSET m` fails with a capacity overflow instead of returning the remaining rows')
+    bld = prog.body('executor::Builder::<S>::build_id_subscriber')
+    sentinel = bld is not None and any(re.search(r'Option::<.*>::unwrap_or$', c.name or '') and len(c.args) > 1 and c.args[1]['k'] == 'const'
+                                       and 'usize' in c.args[1].get('ty', 'usize') for c in bld.calls)
+    n_alloc = 0
+    for name in ('executor::top_n::TopNExecutor::execute::{closure#0}', 'executor::limit::LimitExecutor::execute::{closure#0}'):
+        b = prog.body(name)
+        if not ctx.anchor(R5, name, b is not None):
+            continue
+        ctx.functions_analysed.add(b.name)
+        lim = [v['pl']['p'][0] for v in (b.rec.get('vars') or []) if v['name'] in ('self__limit', 'limit') and v['pl']['l'] == 1 and v['pl']['p']]
+        if not ctx.anchor(R5, f'{name}: the limit field', lim):
+            continue
+        fld = lim[0]
+
+        def tainted(l, seen=None, depth=12):
+            seen = seen if seen is not None else set()
+            if l in seen or depth < 0:
+                return False
+            seen.add(l)
+            for bb, kind, payload in local_defs(b, l):
+                if kind == 'call':
+                    if re.search(r'cmp::Ord::min$|::min$', payload.get('fn') or ''):
+                        continue
+                    if any(a['k'] != 'const' and tainted(a['pl']['l'], seen, depth - 1) for a in payload.get('args', [])):
+                        return True
+                else:
+                    for pl in operand_places(payload):
+                        if pl['l'] == 1 and fld in pl['p']:
+                            return True
+                        if tainted(pl['l'], seen, depth - 1):
+                            return True
+            return False
+        for c in b.calls:
+            if not re.search(r'::(with_capacity|with_capacity_by|with_capacity_in|reserve|reserve_exact|from_elem|repeat)$', c.fn or ''):
+                continue
+            caps = [a for a in c.args if a['k'] != 'const' and b.local_ty(a['pl']['l']) == 'usize']
+            if not caps:
+                continue
+            n_alloc += 1
+            bad = [a for a in caps if tainted(a['pl']['l'])]
+            ctx.ob(R5, f'{b.root}·{c.fn.rsplit("::", 1)[-1]}·not-sized-by-limit', not bad,
+                   f'{b.name}: {c.fn} at block {c.bb}' + (' is sized by `limit` without `min`' if bad else ' is not sized by the raw limit'),
+                   [site(b, c.bb)],
+                   what=f'{b.root} allocates `limit` entries up front; without a LIMIT clause that is the no-limit sentinel and the '
+                        'statement dies with a capacity overflow')
+    ctx.floor(R5, n_alloc, 1, 'sized allocations in TopN / Limit executors')
+    ctx.note(f'C12-R5: the builder substitutes a constant for a missing LIMIT: {sentinel}')
